@@ -322,3 +322,37 @@ void h_mark(void) {
   ASSERT(cv_mk_calls == 2 * old_len && (NS == 0 || cv_mk_hits == (slot(t, gh_s)->h != 0)), "[C01] Table_Mark passes every stored key and every stored value to the callback exactly once, and nothing from an empty slot");
   COVER(NS <= 1 || old_len >= 1, "mark of a non-empty table");
 }
+
+/* Table_Assign (copy of another map): the old contents are finalised and released, a fresh zeroed slot array of the ideal
+ * capacity is installed and every binding of the operand is inserted once, copying (move = false); set_move by its contract */
+#ifndef MOP
+#define MOP 2
+#endif
+static OBJ(Ref, SRCO); static var srco; static struct { struct Header h; struct Elem v; } AK[MOP + 1], AV[MOP + 1];
+static var aop_init(var self) { return MOP ? (var)&AK[0].v : Terminal; }
+static var aop_next(var self, var curr) { size_t i = ((char*)curr - (char*)&AK[0].v) / sizeof(AK[0]); return i + 1 < MOP ? (var)&AK[i + 1].v : Terminal; }
+static struct Iter cv_aop_iter = { aop_init, aop_next, NULL, NULL, NULL };
+size_t len(var self) { return MOP; }
+var get(var self, var key) { size_t i = ((char*)key - (char*)&AK[0].v) / sizeof(AK[0]); __CPROVER_assert(self == srco && i < MOP, "get(operand, key) with a key of the operand"); return &AV[i].v; }
+var instance(var self, var cls) { return &cv_aop_iter; }
+var method_at_offset(var self, var cls, size_t offset, const char* m) { return &cv_aop_iter; }
+bool implements_method_at_offset(var self, var cls, size_t offset) { return true; }
+var key_type(var self) { return ELEM; } var val_type(var self) { return ELEM; }
+void* realloc(void* p, size_t n) { __CPROVER_assert((p == (void*)&SS0 || p == (void*)&SS1) && n == sizeof(struct Slot), "swap spaces resized to one slot"); return p; }
+static int cv_asg_calls, cv_asg_bad;
+void cv_set_move_asg(var self, var key, var val, bool move) {
+  struct Table* tt = self;
+  if (!(tt == t && move == false && cv_asg_calls < MOP && key == (var)&AK[cv_asg_calls].v && val == (var)&AV[cv_asg_calls].v && tt->data == (var)POOL_B && tt->nitems == (size_t)cv_asg_calls)) cv_asg_bad++;
+  cv_asg_calls++; tt->nitems++;
+}
+void h_assign(void) {
+  arbitrary_table();
+  srco = MK(SRCO, Ref, AllocStack);
+  for (int i = 0; i < MOP; i++) { header_init(&AK[i].h, ELEM, AllocData); header_init(&AV[i].h, ELEM, AllocData); AK[i].v.val = nondet_long(); AV[i].v.val = nondet_long(); AK[i].v.tok = 1; AV[i].v.tok = 1; }
+  Table_Assign(t, srco);
+  ASSERT(cv_retired == 2 * old_len, "[C05] assign finalises every key and value the table held before, once each");
+  ASSERT(NS == 0 || cv_freed_a, "[C05] assign releases the old slot array");
+  ASSERT(t->nslots == Table_Ideal_Size(MOP) && t->data == (var)POOL_B && t->ktype == ELEM && t->vtype == ELEM, "[C02] assign installs a fresh slot array of the ideal capacity with the operand's key and value types");
+  ASSERT(cv_asg_calls == MOP && cv_asg_bad == 0 && t->nitems == MOP, "[C02][C05] assign inserts every binding of the operand exactly once, copying key and value (deep copy)");
+  COVER(NS <= 1 || old_len >= 1, "assign over a non-empty table");
+}
